@@ -29,6 +29,9 @@ type Obligation struct {
 	Kind    string            `json:"kind"` // valid | witness | concrete
 	Paths   int               `json:"paths"`
 	Queries int               `json:"queries"`
+	// Syntactic counts the paths on which the obligation reduced to `true` under the polynomial
+	// normal form and the path substitution, so that no solver query was needed.
+	Syntactic int             `json:"syntactic"`
 	Model   map[string]string `json:"model,omitempty"`
 	Reason  string            `json:"reason,omitempty"`
 }
@@ -78,6 +81,7 @@ type Engine struct {
 	OpenSat       int
 	CrossChecks   int
 	CrossDisagree int
+	SyntacticValid int
 
 	fallback        map[string]*Solver
 	FallbackQueries int
@@ -194,7 +198,7 @@ func (e *Engine) Close() {
 
 // SolverStats summarises solver usage.
 func (e *Engine) SolverStats() map[string]any {
-	m := map[string]any{"decide_queries": e.DecideQueries, "valid_queries": e.ValidQueries, "seeded_sat": e.SeededSat, "open_sat": e.OpenSat}
+	m := map[string]any{"decide_queries": e.DecideQueries, "valid_queries": e.ValidQueries, "seeded_sat": e.SeededSat, "open_sat": e.OpenSat, "syntactic_valid": e.SyntacticValid}
 	if e.solver != nil {
 		m["solver"] = e.solver.Name
 		m["sat"] = e.solver.Queries[Sat]
@@ -856,6 +860,8 @@ func (r *Run) Valid(id string, p Pred) bool {
 	p = r.norm(p)
 	switch p.(type) {
 	case pTrue:
+		o.Syntactic++
+		r.eng.SyntacticValid++
 		return true
 	}
 	r.eng.ValidQueries++
